@@ -6,7 +6,7 @@ func init() {
 
 // C05: one notion of truth in every position and for every provenance.
 func checkC05(c *Check) {
-	c.rule = "MC_Truth: every value of the corpus (50 values of all types incl. empty/non-empty containers, zero, negatives) x provenance {literal, SetVariable, object field, fresh host-function result, engine singleton returned by a host function} x position {if, while, ternary, !, !!, if(!x), (!x ? :), while(!x), !x || false, if(!!x), while(!!x), (!!x ? :), either side of && and ||, verdict of Run}; all ordered pairs of the reduced set under && and || with host-function provenance, plain and with both operands negated; results of built-ins in every position; plus the && / || / ! cells of MC_Expr (literal, variable and field provenance); non-trivial = expectation is a value; distinct = distinct (script, provenance, value)"
+	c.rule = "MC_Truth: every value of the corpus (50 values of all types incl. empty/non-empty containers, zero, negatives) and 10 numbers next to zero and far from it (5e-10, -5e-10, 1e-9, 1e-6, 2e9 ...) x provenance {literal, SetVariable, object field, fresh host-function result, engine singleton returned by a host function} x position {if, while, ternary, !, !!, if(!x), (!x ? :), while(!x), !x || false, if(!!x), while(!!x), (!!x ? :), either side of && and ||, verdict of Run}; all ordered pairs of the reduced set under && and || with host-function provenance, plain and with both operands negated; results of built-ins in every position; plus the && / || / ! cells of MC_Expr (literal, variable and field provenance); non-trivial = expectation is a value; distinct = distinct (script, provenance, value)"
 	c.assumptions = []string{"the oracle is EFValues!Truthy: true, positive numbers, non-empty strings/arrays/hashes/regexps are truthy"}
 	runRows(c, "MC_Truth", stdCfg(c.Tier, "PositionsAgree"), func(row *Row) {
 		replayProgRow(c, row, progOpts{})
